@@ -257,16 +257,24 @@ func (f *delayFile) Readdir(n int) ([]os.FileInfo, error) {
 type cfg29 struct {
 	AttrTTL, NegTTL, DirTTL time.Duration
 	NegOn, DirOn            bool
+	AttrCap                 int // 0 = 10000
+}
+
+func (c cfg29) attrCap() int {
+	if c.AttrCap > 0 {
+		return c.AttrCap
+	}
+	return 10000
 }
 
 func (c cfg29) opts() absnfs.ExportOptions {
-	return absnfs.ExportOptions{TransferSize: 65536, AttrCacheTimeout: c.AttrTTL, AttrCacheSize: 10000,
+	return absnfs.ExportOptions{TransferSize: 65536, AttrCacheTimeout: c.AttrTTL, AttrCacheSize: c.attrCap(),
 		CacheNegativeLookups: c.NegOn, NegativeCacheTimeout: c.NegTTL, EnableDirCache: c.DirOn, DirCacheTimeout: c.DirTTL,
 		DirCacheMaxEntries: 1000, DirCacheMaxDirSize: 10000, Squash: "none"}
 }
 func (c cfg29) coq() string {
-	return fmt.Sprintf("{| tsize := 65536; ro := false; maxfile := 0; attr_ttl := %d; attr_cap := 10000; neg_on := %s; neg_ttl := %d; dir_on := %s; dir_ttl := %d; dir_cap := 1000; dir_maxsize := 10000 |}",
-		c.AttrTTL.Nanoseconds(), CBool(c.NegOn), c.NegTTL.Nanoseconds(), CBool(c.DirOn), c.DirTTL.Nanoseconds())
+	return fmt.Sprintf("{| tsize := 65536; ro := false; maxfile := 0; attr_ttl := %d; attr_cap := %d; neg_on := %s; neg_ttl := %d; dir_on := %s; dir_ttl := %d; dir_cap := 1000; dir_maxsize := 10000 |}",
+		c.AttrTTL.Nanoseconds(), c.attrCap(), CBool(c.NegOn), c.NegTTL.Nanoseconds(), CBool(c.DirOn), c.DirTTL.Nanoseconds())
 }
 func (c cfg29) text() string {
 	return fmt.Sprintf("attr=%v neg=%v/%v dir=%v/%v", c.AttrTTL, c.NegOn, c.NegTTL, c.DirOn, c.DirTTL)
@@ -1083,6 +1091,9 @@ func genCached(r0 *Rand, idx int, tier string) Case {
 	r := NewRand(globalSeed()^0xC29B, hist)
 	long := 10 * time.Minute
 	c := cfg29{AttrTTL: long, NegTTL: long, DirTTL: long, NegOn: r.Chance(60), DirOn: r.Chance(60)}
+	if r.Chance(30) {
+		c.AttrCap = 2 + r.Intn(3) // entries are evicted all the time: invalidations often find nothing cached for the path
+	}
 	readers := 1 + r.Intn(3)
 	tags := map[string]int{"clients": readers + 1}
 	names := []string{"f0", "f1", "f2", "d0"}
